@@ -405,8 +405,13 @@ def r5_aliases(ctx):
         for n in walk_no_nested(lp):
             if isinstance(n, ast.Call) and any(k.arg is None for k in n.keywords):
                 ctor = n
-        if var is None or ctor is None:
-            ctx.cannot('R5.aliases', site(f, lp), 'alias loop without a **dict constructor call')
+        if var is None:
+            ctx.cannot('R5.aliases', site(f, lp), 'alias loop with an unforeseen target')
+            continue
+        if ctor is None:
+            ctx.bad('R5.aliases', site(f, lp), key(f, f'alias-shared-object|{ast.unparse(lp.iter)}'),
+                    'the alias loop does not build an entry per alias (no constructor call from a per-alias dict inside '
+                    'the loop): every name gets the same object, which reports one name only')
             continue
         d = next(k.value for k in ctor.keywords if k.arg is None)
         dname = d.id if isinstance(d, ast.Name) else None
@@ -444,5 +449,51 @@ def r5_aliases(ctx):
     ctx.need('R5.aliases', 6, 'Edfa and Transceiver loops x 3')
 
 
-RULES = [('R1.pairing', r1_pairing), ('R2.siblings', r2_siblings), ('R3.precision', r3_precision),
+def r2b_accumulators(ctx):
+    """in the converters, a list initialised empty before a loop and read after it is an accumulator: inside the loop
+    it must be grown (append / extend / +=), never re-assigned (which keeps only the last iteration's entries)"""
+    repo = ctx.repo
+    util = repo.module(UTIL)
+    for f in util.functions.values():
+        if not (f.name.startswith('convert_') or f.name.startswith('process_') or f.name.startswith('reorder_')):
+            continue
+        for lp in [n for n in ast.walk(f.node) if isinstance(n, (ast.For, ast.While))]:
+            par = getattr(lp, '_parent', None)
+            body = getattr(par, 'body', None) if par is not None else None
+            if not isinstance(body, list) or lp not in body:
+                continue
+            i = body.index(lp)
+            before, after = body[:i], body[i + 1:]
+            acc = {}
+            for s in before:
+                if isinstance(s, ast.Assign) and isinstance(s.targets[0], ast.Name) and isinstance(s.value, (ast.List, ast.Dict)) \
+                        and not (s.value.elts if isinstance(s.value, ast.List) else s.value.keys):
+                    acc[s.targets[0].id] = s
+            for nm in acc:
+                if not any(nm in names_in(s) for s in after):
+                    continue
+                grown = reassigned = None
+                for n in ast.walk(lp):
+                    if isinstance(n, ast.Call) and isinstance(n.func, ast.Attribute) and isinstance(n.func.value, ast.Name) \
+                            and n.func.value.id == nm and n.func.attr in ('append', 'extend', 'update', 'insert', 'setdefault'):
+                        grown = n
+                    if isinstance(n, ast.AugAssign) and isinstance(n.target, ast.Name) and n.target.id == nm:
+                        grown = n
+                    if isinstance(n, ast.Assign) and isinstance(n.targets[0], ast.Subscript) and \
+                            isinstance(n.targets[0].value, ast.Name) and n.targets[0].value.id == nm:
+                        grown = n
+                    if isinstance(n, ast.Assign) and any(isinstance(t, ast.Name) and t.id == nm for t in n.targets) and \
+                            nm not in names_in(n.value):
+                        reassigned = n
+                if reassigned is not None:
+                    ctx.bad('R2.accumulate', site(f, reassigned), f'{f.qual}|accumulator-overwritten|{nm}',
+                            f'{nm} collects entries over the iterations of a loop but is re-assigned inside it: only the '
+                            'last iteration survives (e.g. a ROADM mixing per-degree target types loses all but one)',
+                            ast.unparse(reassigned)[:160])
+                elif grown is not None:
+                    ctx.ok('R2.accumulate', site(f, lp), f'{nm} grown by {ast.unparse(grown)[:80]}')
+    ctx.need('R2.accumulate', 2, 'convert_degree.new_targets, convert_back_design_band.design_bands')
+
+
+RULES = [('R2.accumulate', r2b_accumulators), ('R1.pairing', r1_pairing), ('R2.siblings', r2_siblings), ('R3.precision', r3_precision),
          ('R4.loaders', r4_loaders), ('R5.aliases', r5_aliases)]
